@@ -55,7 +55,10 @@ def run(chk):
         ok, info = dag.is_zero_fp([dag.sub(d, want)], chk.seed, 2)
         chk.need(ok, f"oracle broken: d/dt F_{i} != t^{i} exp(N(t-logx))")
     fl = src.func(f"{IP}.log_evaluate_Nx")
-    regimes = {"below": (True, 1), "inside": (True, 0), "above": (False, 0)}
+    # the last two: a point a relative 1e-7 away from a node is NOT the node (the tolerance of the edge tests is of machine-epsilon size)
+    regimes = {"below": (True, 1), "inside": (True, 0), "above": (False, 0), "just below the upper edge of": (True, 0),
+               "just below the lower edge of": (True, 1), "just above the lower edge of": (True, 0)}
+    tiny = Fraction(1, 10 ** 7)
     n_id = 0
     for deg in range(0, 7):
         cs = [dag.sym(f"c{i}") for i in range(deg + 1)]
@@ -68,7 +71,8 @@ def run(chk):
                     # judged on the values (the symbols this check passes in), not on the names of the source's locals; a generic
                     # product N*logxmax is not within a tolerance of zero (that branch only avoids 0**0)
                     rep = {"lmin": Fraction(-2), "lmax": Fraction(-1),
-                           "logx": {"below": Fraction(-3), "inside": Fraction(-3, 2), "above": Fraction(-1, 2)}[rname]}
+                           "logx": {"below": Fraction(-3), "inside": Fraction(-3, 2), "above": Fraction(-1, 2), "just below the upper edge of": -1 - tiny,
+                                    "just below the lower edge of": -2 - tiny, "just above the lower edge of": -2 + tiny}[rname]}
                     return decide_on_values(pe_box[0], " ".join(text.split()), env, rep)
 
                 pe_box = [None]
